@@ -199,6 +199,17 @@ def run_verus(path, rlimit=None, extra=()):
     return dict(returncode=r.returncode, stdout=r.stdout, stderr=r.stderr, json=js, wall_s=dt, cmd=" ".join(cmd))
 
 
+VERIFICATION_FAILURE = re.compile(r"(postcondition not satisfied|precondition not satisfied|assertion failed|possible arithmetic (underflow/)?overflow|"
+                                  r"possible division by zero|invariant not satisfied|decreases not satisfied|could not prove termination|index out of bounds|"
+                                  r"possible bit shift|bit shift|cannot prove|may fail|not satisfied|failed this|unreachable|recommendation not met)", re.I)
+
+
+def is_verification_failure(e):
+    """True for an obligation the solver could not discharge; False for tool-level diagnostics (unsupported construct,
+    rustc errors such as a proof hint naming a renamed local): those are undecided, never a violation."""
+    return bool(VERIFICATION_FAILURE.search(e.get("message") or ""))
+
+
 def parse_errors(stderr):
     """Verus/rustc diagnostics -> list of dict(kind, message, line)."""
     errs = []
